@@ -109,6 +109,9 @@ theorem pinv2_step (st : PStreams) (c : PClient) (h : PInv2 st c) (s : PStep) (h
       fun k e hk => by simp [pstepC, pupdate, lookupAssoc] at hk⟩
   | qS i sz => exact pinv2_queryShard st c h i sz
   | qL i sz p n => exact pinv2_queryShardLB st c h i sz p n
+  | evict kK kL =>
+    exact ⟨h.wf, fun k ids hk => h.cache k ids (lookup_filter kK k c.cache ids hk),
+      fun k e hk => h.lb k e (lookup_filter kL k c.lbCache e hk)⟩
 
 theorem pinv2_run (st : PStreams) : ∀ (steps : List PStep) (c : PClient), PInv2 st c → PWFSteps steps →
     PInv2 st (prun st c steps) := by
